@@ -55,7 +55,14 @@ pub fn obs_of_client(c: &huginn_net_tls::ObservableTlsClient) -> Obs {
 pub fn compare(h: &Hello, o: &Obs) -> Vec<(String, String)> {
     let mut out = vec![];
     for (orig, got) in [(false, &o.ja4), (true, &o.ja4_o)] {
-        let r = ja4(h, orig);
+        let mut r = ja4(h, orig);
+        // where the published revisions differ (punctuation at the ends of the first ALPN value) either reading is right
+        if crate::refm::ja4::alpn_has_two_readings(h) {
+            let r2 = crate::refm::ja4::ja4_reading(h, orig, true);
+            if got.2 == r2.a {
+                r = r2;
+            }
+        }
         let tag = if orig { "ja4_o" } else { "ja4" };
         if got.2 != r.a {
             let c = if got.2.get(..3) != r.a.get(..3) {
@@ -310,7 +317,7 @@ pub fn families(thorough: bool) -> Vec<Hello> {
     }
     // F3: signature-algorithm orders with GREASE inside x ALPN lists x SNI presence
     let sa = [0x0403u16, 0x0804, 0x1a0a, 0x1a1a];
-    let alpns: Vec<Option<Vec<String>>> = vec![None, Some(vec![s("h2")]), Some(vec![s("http/1.1")]), Some(vec![s("h2"), s("http/1.1")]), Some(vec![s("h3")]), Some(vec![s("hq-29"), s("h2")])];
+    let alpns: Vec<Option<Vec<String>>> = vec![None, Some(vec![s("h2")]), Some(vec![s("http/1.1")]), Some(vec![s("h2"), s("http/1.1")]), Some(vec![s("h3")]), Some(vec![s("hq-29"), s("h2")]), Some(vec![s("**"), s("h2")]), Some(vec![s("::")]), Some(vec![s("_sip")]), Some(vec![s("h2-")]), Some(vec![s("a b")]), Some(vec![s(" x"), s("h2")])];
     for sub in subsets(&sa, 0, 4) {
         for order in perms(&sub) {
             for al in &alpns {
@@ -348,6 +355,12 @@ pub fn route_family() -> Vec<Hello> {
                     v.push(Hello { legacy, ciphers: cs.clone(), exts, ..Hello::default() });
                 }
             }
+        }
+    }
+    // every record-layer version a ClientHello may travel in
+    for record_version in [0x0300u16, 0x0301, 0x0302, 0x0303, 0x0304] {
+        for legacy in [0x0301u16, 0x0303] {
+            v.push(Hello { record_version, legacy, exts: vec![pool[0].clone(), Ext::SupVer(vec![0x0304, 0x0303])], ..Hello::default() });
         }
     }
     // ClientHellos that fill a TLS record up to the largest legal size (2^14 bytes of record payload): a padding extension
